@@ -58,7 +58,7 @@ structure Found (K : Type) where
   user : K
   status : Status := .has
   excluded : List K := []
-  deriving Repr
+  deriving Repr, DecidableEq
 
 inductive ErrKind where
   | depth   -- graph.ErrResolutionDepthExceeded
